@@ -101,9 +101,18 @@ class DtdParser:
             name=attribute.name,
             type=DtdAttributeType(attribute.type),
             default=DtdAttributeDefault(attribute.default),
-            default_value=attribute.default_value,
+            default_value=cls.unescape_default(attribute.default_value),
             values=attribute.values(),
         )
+
+    @classmethod
+    def unescape_default(cls, value: str | None) -> str | None:
+        """Return the attribute default the dtd prescribes.
+
+        The dtd parser resolves the entities of a default value except for
+        the ampersand, which it keeps as the character reference &#38;
+        """
+        return value.replace("&#38;", "&") if value else value
 
     @classmethod
     def build_ns_map(cls, prefix: str, attributes: list[DtdAttribute]) -> dict:
